@@ -1576,6 +1576,10 @@ M('C19', 'original defect: IrregularLattice.order setter keeps the cached MPS si
   "            self.N_sites_per_ring = None\n        self._mps_sites_cache = None\n", "            self.N_sites_per_ring = None\n",
   'SETTER-invalidate')
 
+M('C11', 'original defect: make_U_I orders the raw identity indices', 'tenpy/networks/mpo.py',
+  "            IdL = IdL % U1.shape[1]  # (stored indices may count from the end, e.g. -1 after `+`)\n            IdR = IdR % U1.shape[1]\n", "",
+  'ID-normalised')
+
 M('C02', 'original defect: iswapaxes re-binds _qdata to an F-contiguous column selection', NPC,
   "        self._qdata = np.array(self._qdata[:, swap], order='C')  # (column selection is F-contiguous)", "        self._qdata = self._qdata[:, swap]",
   'QDATA-contiguous')
